@@ -28,7 +28,8 @@ type vqT struct {
 // Field queries project exactly the selected fields: every subset of the four
 // top-level fields (and of the nested struct's two fields), two request orders.
 func H_C19_query(t *verifrt.T) {
-	v := &vqT{A: int(smallInt(t, "a")), B: plainString(t, "b", 1), In: vqIn{X: int(smallInt(t, "x")), Y: plainString(t, "y", 1)}, C: t.Bool("c")}
+	// field values: one symbolic integer, the rest fixed (projection does not depend on the values)
+	v := &vqT{A: int(smallInt(t, "a")), B: "q", In: vqIn{X: 5, Y: "r"}, C: true}
 	sel := t.Choice("subset", 16)
 	sub := t.Choice("in-subset", 4)
 	q := &FieldQuery{}
@@ -87,8 +88,13 @@ func H_C19_query(t *verifrt.T) {
 	}
 	b = append(b, '}')
 	ctx := SetFieldQueryToContext(context.Background(), q)
-	if t.Choice("unfiltered-first", 2) == 1 {
+	switch t.Choice("history", 3) {
+	case 1:
 		Marshal(v) // request order: the unfiltered program first
+	case 2:
+		// another query on the same type first (a different projection of the nested struct)
+		other := &FieldQuery{Fields: []*FieldQuery{{Name: "a"}, {Name: "in", Fields: []*FieldQuery{{Name: []string{"x", "y"}[t.Choice("other-sub", 2)]}}}}}
+		MarshalContext(SetFieldQueryToContext(context.Background(), other), v)
 	}
 	out, err := MarshalContext(ctx, v)
 	t.Assert("marshal-succeeds", err == nil)
